@@ -1,4 +1,5 @@
 import Anysystem.Proofs.SimNetThms
+import Anysystem.Proofs.SimRunThms
 /-!
 # C05 — The simulated network delivers only what link state and fault rates allow
 
@@ -20,5 +21,17 @@ namespace Anysystem
 #check @Sim.reset_heals_keeps_rates
 #check @Sim.dropIncoming_directional
 #check @Sim.dropOutgoing_directional
+
+/- whole runs: every queued copy, receipt and drop stems from an earlier MessageSent with the same id and endpoints, carrying
+   the payload sent or (only across nodes) its canonical corruption; with corruption rate zero exactly the payload sent -/
+#check @Sim.TraceOrigin.init
+#check @Sim.TraceOrigin.sendMessage
+#check @Sim.TraceOrigin.step
+#check @Sim.TraceOrigin.steps
+#check @Sim.TraceOrigin.sendLocal
+#check @Sim.TraceOrigin.crashNode
+#check @Sim.TraceOrigin.recoverNode
+#check @Sim.received_intact_no_corruption
+#check @Sim.queued_intact_no_corruption
 
 end Anysystem
